@@ -238,6 +238,7 @@ func generate(prop, tier string, seed uint64, jl *jobList) int {
 		genWaitCancelRuns(r, leafKinds(), jl.addFlow)
 		genBatchRetry(r, thorough, jl.addFlow)
 	case "C03":
+		genBuilderAlias(r, jl.addFlow)
 		genZeroSizeNodes(r, jl.addFlow)
 		genSelfNest(r, jl.addFlow)
 		genC03(r, thorough, jl.addFlow)
